@@ -1047,6 +1047,11 @@ class XsdElement(XsdComponent, ParticleMixin,
                     if err.elem is not None:
                         raise
                     errors.append(err)
+                else:
+                    if self.fixed is not None and elem.text is not None and \
+                            elem.text != self.fixed and \
+                            xsd_type.text_decode(elem.text) != xsd_type.text_decode(self.fixed):
+                        errors.append("must have the fixed value %r" % self.fixed)
 
             elif self.fixed is not None:
                 elem.text = self.fixed
